@@ -368,3 +368,93 @@ func ruleR03d(h *H, rule string) {
 		h.Verdict(ok, rule, name, h.pos(s.Call), "created after "+describeCallee(trunc[0].Common())+" succeeded, starting at the returned head offset", detail)
 	}
 }
+
+// ruleNoTruncateDecision: the truncation helper may hand the follower's own head back
+// (i.e. decide "no truncation needed") only when the leader's log provably contains
+// that entry: same term and offset not beyond a reference entry of the leader's log.
+func ruleNoTruncateDecision(h *H, rule string) {
+	h.Rule(rule, "K11", "the truncation step returns the follower's reported head unchanged only under head.Term == ref.Term && head.Offset <= ref.Offset for one reference entry ref of the leader's own log", 1)
+	sites := h.P.AllCalls(ir.InPkg("server"), newFollowerCursor)
+	seen := map[*ssa.Function]bool{}
+	for _, s := range sites {
+		ir.Instrs(s.Fn, func(in ssa.Instruction) {
+			ci, ok := in.(ssa.CallInstruction)
+			if !ok || ci == s.Call {
+				return
+			}
+			f := ci.Common().StaticCallee()
+			if f == nil || seen[f] || !h.P.CallStaticallyReaches(ci, h.P.MatchPred(rpcTruncate)) {
+				return
+			}
+			seen[f] = true
+			h.Fn(ir.FuncName(f))
+			checkNoTruncateReturns(h, rule, f)
+		})
+	}
+	if len(seen) == 0 {
+		h.Anchor(rule, "the truncation helper called before NewFollowerCursor")
+	}
+}
+
+func checkNoTruncateReturns(h *H, rule string, f *ssa.Function) {
+	var head *ssa.Parameter
+	for _, p := range f.Params {
+		if ir.TypeIs(p.Type(), "proto", "EntryId") {
+			head = p
+		}
+	}
+	if head == nil {
+		h.Anchor(rule, "EntryId parameter of "+ir.FuncName(f))
+		return
+	}
+	n := 0
+	ir.Instrs(f, func(in ssa.Instruction) {
+		ret, ok := in.(*ssa.Return)
+		if !ok || len(ret.Results) != 2 {
+			return
+		}
+		if ir.Canon(ret.Results[0]) != ssa.Value(head) {
+			return
+		}
+		n++
+		name := fmt.Sprintf("%s: return of the follower's own head #%d", ir.FuncName(f), n)
+		cmps := ir.CmpGuards(in)
+		isHeadField := func(v ssa.Value, field string) bool {
+			r, ok := ir.FieldLoadOf(ir.Canon(v))
+			return ok && r.Is("proto", "EntryId", field) && ir.Canon(r.Base) == ssa.Value(head)
+		}
+		refBase := func(v ssa.Value, field string) (ssa.Value, bool) {
+			r, ok := ir.FieldLoadOf(ir.Canon(v))
+			if ok && r.Is("proto", "EntryId", field) && ir.Canon(r.Base) != ssa.Value(head) {
+				return r.Base, true
+			}
+			return nil, false
+		}
+		good := false
+		for _, c1 := range cmps {
+			for _, t := range []ir.Cmp{c1, c1.Flip()} {
+				if t.Op != token.EQL || !isHeadField(t.L, "Term") {
+					continue
+				}
+				ref, ok := refBase(t.R, "Term")
+				if !ok {
+					continue
+				}
+				for _, c2 := range cmps {
+					for _, o := range []ir.Cmp{c2, c2.Flip()} {
+						if (o.Op == token.LEQ || o.Op == token.LSS || o.Op == token.EQL) && isHeadField(o.L, "Offset") {
+							if ref2, ok := refBase(o.R, "Offset"); ok && ir.SameExpr(ref, ref2) {
+								good = true
+							}
+						}
+					}
+				}
+			}
+		}
+		h.Verdict(good, rule, name, h.pos(in), "guarded by head.Term == ref.Term && head.Offset <= ref.Offset on one reference entry",
+			"the follower's head is accepted without truncation although the guards do not establish that the leader's log contains that entry (need term equality and offset bound against the same leader entry)")
+	})
+	if n == 0 {
+		h.Note("%s never returns its EntryId parameter unchanged", ir.FuncName(f))
+	}
+}
